@@ -8,6 +8,8 @@ namespace Sigc.SlotG
 
 /-- some live owning functor copy shares the holder of `v` -/
 def Owned (s : State) (v : Nat) : Prop := ∃ r R f, s.reps r = some R ∧ R.fn = some f ∧ f.owns = some v
+/-- some live functor copy shares the holder of connection `c` -/
+def OwnedC (s : State) (c : Nat) : Prop := ∃ r R f, s.reps r = some R ∧ R.fn = some f ∧ f.ownsC = some c
 /-- some live `sref` functor copy refers to `v` -/
 def Pinned (s : State) (v : Nat) : Prop := ∃ r R fid, s.reps r = some R ∧ R.fn = some (.sref fid v)
 
@@ -41,6 +43,8 @@ structure Inv (s : State) : Prop where
     v = anonBase + r ∧ ∃ V, s.slots v = some V
   anonBound : ∀ v V, s.slots v = some V → anonBase ≤ v → v < anonBase + s.nextRep
   repBound : ∀ r R, s.reps r = some R → r < s.nextRep
+  regHeld : ∀ r R c, s.reps r = some R → c ∈ R.cbs → ∃ v, repOf s v = some r
+  ownCOk : ∀ r R fid c, s.reps r = some R → R.fn = some (.ownc fid c) → ∃ p, s.conns c = some p
 
 theorem repOf_eq {s : State} {v r : Nat} : repOf s v = some r ↔ ∃ V, s.slots v = some V ∧ V.rep = some r := by
   unfold repOf; split <;> simp_all
@@ -124,7 +128,7 @@ theorem repOf_eq {s : State} {v r : Nat} : repOf s v = some r ↔ ∃ V, s.slots
 
 /-- rewrite field projections of updated states -/
 macro "st_simp" : tactic =>
-  `(tactic| simp only [slotg_simp, Owned, Orphan, Option.map_eq_some_iff, Option.map_eq_none_iff, Option.bind_eq_some_iff] at *)
+  `(tactic| simp only [slotg_simp, Owned, OwnedC, Orphan, Option.map_eq_some_iff, Option.map_eq_none_iff, Option.bind_eq_some_iff] at *)
 
 /-- one clause of `Inv _`: all clauses of `Inv s` as hypotheses, field rewriting, then `grind` -/
 syntax "inv_clause " ident (" with" " [" Lean.Parser.Tactic.grindParam,* "]")? : tactic
@@ -134,6 +138,7 @@ macro_rules
     let ps := ps.push (← `(Lean.Parser.Tactic.grindParam| Fun.trk))
     let ps := ps.push (← `(Lean.Parser.Tactic.grindParam| Fun.ref))
     let ps := ps.push (← `(Lean.Parser.Tactic.grindParam| Fun.owns))
+    let ps := ps.push (← `(Lean.Parser.Tactic.grindParam| Fun.ownsC))
     let ps := ps.push (← `(Lean.Parser.Tactic.grindParam| Option.map_eq_some_iff))
     `(tactic|
         (intros
@@ -142,6 +147,7 @@ macro_rules
          have hA7 := ($h).trkReg; have hA8 := ($h).trkEnt; have hA9 := ($h).trkNodup
          have hA10 := ($h).refOk; have hA11 := ($h).ownOk; have hA12 := ($h).repBound
          have hA13 := ($h).regUniq; have hA14 := ($h).nestOk; have hA15 := ($h).anonBound
+         have hA16 := ($h).regHeld; have hA17 := ($h).ownCOk
          try st_simp
          first | done | grind [$ps,*] | grind (instances := 4000) [$ps,*]))
 
@@ -175,6 +181,7 @@ structure InvS (s : State) : Prop where
     v = anonBase + r ∧ ∃ V, s.slots v = some V
   anonBound : ∀ v V, s.slots v = some V → anonBase ≤ v → v < anonBase + s.nextRep
   repBound : ∀ r R, s.reps r = some R → r < s.nextRep
+  ownCOk : ∀ r R fid c, s.reps r = some R → R.fn = some (.ownc fid c) → ∃ p, s.conns c = some p
 
 theorem InvS.inv {s : State} (h : InvS s) : Inv s where
   repAlive := h.repAlive
@@ -197,6 +204,9 @@ theorem InvS.inv {s : State} (h : InvS s) : Inv s where
   nestOk := h.nestOk
   anonBound := h.anonBound
   repBound := h.repBound
+  regHeld := fun r R c hR hm => by
+    obtain ⟨v, -, hr⟩ := h.cbsConn r R c hR hm; exact ⟨v, hr⟩
+  ownCOk := h.ownCOk
 
 /-- one clause of `InvS _` from `h : InvS s` -/
 syntax "invs_clause " ident (" with" " [" Lean.Parser.Tactic.grindParam,* "]")? : tactic
@@ -206,6 +216,7 @@ macro_rules
     let ps := ps.push (← `(Lean.Parser.Tactic.grindParam| Fun.trk))
     let ps := ps.push (← `(Lean.Parser.Tactic.grindParam| Fun.ref))
     let ps := ps.push (← `(Lean.Parser.Tactic.grindParam| Fun.owns))
+    let ps := ps.push (← `(Lean.Parser.Tactic.grindParam| Fun.ownsC))
     let ps := ps.push (← `(Lean.Parser.Tactic.grindParam| Option.map_eq_some_iff))
     `(tactic|
         (intros
@@ -213,7 +224,7 @@ macro_rules
          have hA4 := ($h).cbsConn; have hA5 := ($h).cbsNodup; have hA6 := ($h).parentOk
          have hA7 := ($h).trkReg; have hA8 := ($h).trkEnt; have hA9 := ($h).trkNodup
          have hA10 := ($h).refOk; have hA11 := ($h).ownOk; have hA12 := ($h).repBound
-         have hA14 := ($h).nestOk; have hA15 := ($h).anonBound
+         have hA14 := ($h).nestOk; have hA15 := ($h).anonBound; have hA17 := ($h).ownCOk
          try st_simp
          first | done | grind [$ps,*] | grind (instances := 4000) [$ps,*]))
 
